@@ -442,6 +442,9 @@ def make_interp(funcs, index, k0_const=None):
                 return env.get("path:%s(0,0)" % red[1], TOP)
             return TOP
         if idx == index:
+            if index == 0 and env.get("ev:exportK") == ("bool", True):
+                # the tangent operator has been exported into the caller's K: K[0] no longer holds the request
+                return TOP
             return True
         if idx == 0 and k0_const is not None:
             return const(k0_const)
